@@ -6,6 +6,7 @@ import (
 
 	"verifharness/internal/corpus"
 	"verifharness/internal/fw"
+	"verifharness/internal/gen"
 	"verifharness/internal/jsonx"
 	"verifharness/internal/mut"
 	"verifharness/internal/run"
@@ -25,8 +26,9 @@ func init() {
 		Families: []fw.Family{
 			{Name: "corpus", N: func(string) int { return len(corpus.All()) * 3 }, Gen: c01GenCorpus, Eval: c09Eval},
 			{Name: "mutant", N: constN(60000, 2000000), Gen: c09GenMutant, Eval: c09Eval},
-			{Name: "names", N: constN(30000, 600000), Gen: c09GenNames, Eval: c09Eval},
+			{Name: "names", N: constN(90000, 1500000), Gen: c09GenNames, Eval: c09Eval},
 			{Name: "tokens_rand", N: constN(20000, 300000), Gen: c01GenTokensRand, Eval: c09Eval},
+			{Name: "models", N: constN(6000, 200000), Gen: genModelCase, Eval: c09EvalModel},
 		},
 		Floors: map[string]int64{"accepted": 3000},
 	})
@@ -276,6 +278,23 @@ func quoteParam(s string) string {
 
 func c09GenNames(r *xrand.Rand, idx int, tier string) *fw.Case {
 	h := func() string { return hostile[r.Intn(len(hostile))] }
+	if idx%7 == 0 {
+		// targeted: two entries whose names differ only in a byte that serialisation may fold
+		a, b := []string{"\xc3", "\xff", "é", "e\u0301", "\u2028", "<", "&", "a b", "a  b", "a\tb", "A"}[r.Intn(11)], []string{"\xff", "\xc3", "\xfe", "é", "\u2029", "\\u003c", "a b", "a"}[r.Intn(8)]
+		var sb strings.Builder
+		sb.WriteString("JSIGHT 0.3\n")
+		switch r.Intn(3) {
+		case 0:
+			sb.WriteString("GET " + quoteParam("/p/"+a) + "\n  200 any\nGET " + quoteParam("/p/"+b) + "\n  200 any\n")
+		case 1:
+			sb.WriteString("URL /r\n  Protocol json-rpc-2.0\n  Method " + quoteParam("m"+a) + "\n    Params\n    {}\n  Method " + quoteParam("m"+b) + "\n    Params\n    {}\n")
+		default:
+			sb.WriteString("URL " + quoteParam("/"+a) + "\n  Protocol json-rpc-2.0\n  Method \"x /y\"\n    Params\n    {}\nURL " + quoteParam("/y /"+a) + "\n  Protocol json-rpc-2.0\n  Method x\n    Params\n    {}\n")
+		}
+		c := oneDocCase([]byte(sb.String()), "", "near-colliding names")
+		c.Meta = map[string]string{"class": "near-collision"}
+		return c
+	}
 	var sb strings.Builder
 	sb.WriteString("JSIGHT 0.3\n")
 	class := ""
@@ -330,4 +349,15 @@ func jsonEsc(s string) string {
 	s = strings.ReplaceAll(s, "\"", "\\\"")
 	s = strings.ReplaceAll(s, "\t", "\\t")
 	return s
+}
+
+// c09EvalModel renders a generated API model (random style) and applies the invariants to its catalog.
+func c09EvalModel(t *fw.T, c *fw.Case) {
+	m, r := modelOf(c, gen.Options{MaxBlocks: 16, AllowAllOf: true, DeepAllOf: true})
+	rd := gen.Render(m, gen.RandomStyle(r.Fork()))
+	d := run.Single([]byte(rd.Text))
+	d.FixedSeed = true
+	c.Docs = []run.Doc{d}
+	c.Meta["class"] = "model"
+	c09Eval(t, c)
 }
